@@ -32,8 +32,10 @@ struct Track {
   bool enabled = false;          // cap enforced only while an enumeration attempt runs
   bool over_cap = false;
   long long base_bytes = 0;
+  long base_count = 0;
   size_t biggest = 0;
   static const long long CAP = 64ll << 20;
+  static const long CAP_BLOCKS = 200000;     // live blocks per attempt: reaching 64 MiB through millions of small blocks is the same runaway allocation
 };
 inline Track& track() { static Track t; return t; }
 }
@@ -42,7 +44,7 @@ inline void* verif_alloc(size_t n) {
   sd::Track& t = sd::track();
   if (t.enabled) {
     if (n > t.biggest) t.biggest = n;
-    if ((long long)n > sd::Track::CAP || t.live_bytes - t.base_bytes + (long long)n > sd::Track::CAP) {
+    if ((long long)n > sd::Track::CAP || t.live_bytes - t.base_bytes + (long long)n > sd::Track::CAP || t.live_count - t.base_count > sd::Track::CAP_BLOCKS) {
       t.over_cap = true;
       throw std::bad_alloc();
     }
@@ -93,6 +95,10 @@ struct Obj {
   virtual void observe(Line& l, int mode) = 0;
   // follow-up history ("remains fully functional"): false = not applicable
   virtual bool cont(const Line& seg) { (void)seg; return false; }
+  // false: the restored object legitimately draws different random choices than the original (e.g. REQ draws a fresh coin per
+  // compactor while deserializing), so after continuing only the coarse observation (mode 3: configuration, counts, extremes,
+  // total weight) is compared
+  virtual bool cont_exact() { return true; }
   // canonical form of an image whose layout stores a hash table in unspecified order (identity otherwise)
   virtual Bytes canon(const Bytes& b) { return b; }
   virtual bool unordered_layout(const Bytes& b) { (void)b; return false; }
@@ -157,12 +163,17 @@ inline std::string digest_report(const std::string& txt) {
     size_t in = line.find(" in "); size_t sp = line.rfind(' ');
     if (in == std::string::npos || sp == std::string::npos || sp <= in + 3) continue;
     std::string path = line.substr(sp + 1), func = line.substr(in + 4, sp - (in + 4));
-    if (path.find("/include/") == std::string::npos || path.find("/usr/") == 0) continue;
-    size_t sl = path.rfind('/'); std::string file = path.substr(sl + 1);
-    size_t col = file.find(':'); std::string fname = file.substr(0, col);
-    std::string lno = col == std::string::npos ? "" : file.substr(col + 1);
-    size_t c2 = lno.find_first_not_of("0123456789"); if (c2 != std::string::npos) lno = lno.substr(0, c2);
-    if (fname == "memory_operations.hpp" || fname == "common_defs.hpp") continue;
+    const bool in_headers = path.find("/include/") != std::string::npos && path.find("/usr/") != 0;
+    const bool lib_func = func.find("datasketches::") != std::string::npos && func.find("sd::") != 0;
+    if (!in_headers && !lib_func) continue;     // some frames come without file:line, only "(module+offset)"
+    std::string fname, lno;
+    if (in_headers) {
+      size_t sl = path.rfind('/'); std::string file = path.substr(sl + 1);
+      size_t col = file.find(':'); fname = file.substr(0, col);
+      lno = col == std::string::npos ? "" : file.substr(col + 1);
+      size_t c2 = lno.find_first_not_of("0123456789"); if (c2 != std::string::npos) lno = lno.substr(0, c2);
+      if (fname == "memory_operations.hpp" || fname == "common_defs.hpp") continue;
+    }
     std::string f2; int depth = 0;
     for (size_t i = 0; i < func.size(); ++i) {
       char c = func[i];
@@ -171,7 +182,8 @@ inline std::string digest_report(const std::string& txt) {
     while (!f2.empty() && f2.back() == ' ') f2.pop_back();
     size_t s2 = f2.rfind(' '); if (s2 != std::string::npos) f2 = f2.substr(s2 + 1);
     size_t ns = f2.find("datasketches::"); if (ns != std::string::npos) f2 = f2.substr(ns + 14);
-    where = fname + ":" + lno + " " + f2;
+    if (f2 == "copy_from_mem" || f2 == "copy_to_mem" || f2 == "read" || f2 == "write" || f2 == "ensure_minimum_memory" || f2 == "check_memory_size") continue;
+    where = (fname.empty() ? std::string("?") : fname + ":" + lno) + " " + f2;
     break;
   }
   return kind + " @ " + where;
@@ -264,7 +276,7 @@ inline int attempt_once(Obj& proto, int path, const uint8_t* data, size_t len, c
   Track& t = track();
   scrub_stack();
   long before = t.live_count;
-  t.over_cap = false; t.base_bytes = t.live_bytes; t.enabled = true;
+  t.over_cap = false; t.base_bytes = t.live_bytes; t.base_count = t.live_count; t.enabled = true;
   int oc = REJECTED;
   {
     uint8_t* buf = nullptr;
@@ -341,22 +353,33 @@ inline void emit_loop(Out& o, const LoopResult& r, long total) {
   for (char c : txt) o.F((I)(uint8_t)c);
 }
 
-// prefixes: every strict prefix length in [start, size)
-inline void op_prefixes(Obj& obj, int path, long start, Out& o) {
+// prefixes: every strict prefix length in [0, size) when size <= dense + 64; for larger images the first `dense` lengths, the last 64
+// and `dense` evenly spaced lengths in between (the R line reports the number of lengths tried and the image size)
+inline void op_prefixes(Obj& obj, int path, long dense, Out& o, size_t max_off = 24) {
   Bytes img = obj.ser(0);
-  if (obj.has_header() == false) { /* same call */ }
   Line ref; obj.observe(ref, 1);
   // warm-up on the full image (lazy tables, locale facets)
   { std::unique_ptr<Obj> w; try { if (path == P_WRAP) w.reset(obj.wrap(img.data(), img.size())); else if (path == P_BYTES) w.reset(obj.de(img.data(), img.size()));
       else { std::istringstream is(std::string((const char*)img.data(), img.size())); w.reset(obj.de(is)); }
       if (w) { Line l; w->observe(l, 1); } } catch (const std::exception&) {} }
-  long total = (long)img.size();
-  LoopResult r = guarded_loop(start, total, [&](long len) { return attempt(obj, path, img.data(), (size_t)len, &ref); });
-  emit_loop(o, r, total);
+  const long size = (long)img.size();
+  if (dense <= 0) dense = 1 << 30;
+  std::vector<long> lens;
+  if (size <= dense + 64) { for (long i = 0; i < size; ++i) lens.push_back(i); }
+  else {
+    for (long i = 0; i < dense; ++i) lens.push_back(i);
+    const long span = size - 64 - dense;
+    for (long j = 0; j < dense; ++j) { long v = dense + (long)((double)j * (double)span / (double)dense); if (v > lens.back() && v < size - 64) lens.push_back(v); }
+    for (long i = size - 64; i < size; ++i) lens.push_back(i);
+  }
+  LoopResult r = guarded_loop(0, (long)lens.size(), [&](long k) { return attempt(obj, path, img.data(), (size_t)lens[(size_t)k], &ref); }, 6, max_off);
+  for (Offence& f : r.offs) f.idx = lens[(size_t)f.idx];     // report lengths, not positions in the list
+  emit_loop(o, r, (long)lens.size());
+  o.R(size);
 }
 
 // corruption: index = position * 8 + k over the preamble bytes
-inline void op_corrupt(Obj& obj, int path, long start, Out& o) {
+inline void op_corrupt(Obj& obj, int path, long start, Out& o, size_t max_off = 24) {
   Bytes img = obj.ser(0);
   { std::unique_ptr<Obj> w; try { if (path == P_WRAP) w.reset(obj.wrap(img.data(), img.size())); else if (path == P_BYTES) w.reset(obj.de(img.data(), img.size()));
       else { std::istringstream is(std::string((const char*)img.data(), img.size())); w.reset(obj.de(is)); }
@@ -370,7 +393,7 @@ inline void op_corrupt(Obj& obj, int path, long start, Out& o) {
     for (int j = 0; j < k; ++j) if (corrupt_value(img[pos], j) == nv) return (int)ACC_SAME;
     Bytes mod(img); mod[pos] = nv;
     return attempt(obj, path, mod.data(), mod.size(), nullptr);
-  });
+  }, 6, max_off);
   emit_loop(o, r, total);
 }
 
@@ -382,6 +405,12 @@ inline void op_corrupt(Obj& obj, int path, long start, Out& o) {
 //  7 e_reser_bytes   8 e_reser_stream   9 g_continue  10 a2_serialize_pure  11 b2_max_size  12 w_wrap_same
 //  then: bytes size, stream size, advertised size, consumed by the stream reader, state class
 enum { RT_N = 13 };
+inline void dbg_lines(const char* what, const Line& a, const Line& b) {
+  if (!getenv("VERIF_SERDE_DEBUG")) return;
+  fprintf(stderr, "---- %s\n", what);
+  const Line* ls[2] = {&a, &b};
+  for (int k = 0; k < 2; ++k) { for (I v : *ls[k]) { fputc(' ', stderr); vh::print_tok(stderr, v); } fputc('\n', stderr); }
+}
 inline void op_roundtrip(Obj& obj, const Line& seg, const std::function<void(int)>& reseed, Out& o) {
   int f[RT_N]; for (int i = 0; i < RT_N; ++i) f[i] = 2;
   long sz_b = -1, sz_s = -1, sz_adv = -1, consumed = -1;
@@ -408,7 +437,7 @@ inline void op_roundtrip(Obj& obj, const Line& seg, const std::function<void(int
     consumed = (long)pos;
     f[4] = (consumed == (long)s.size()) ? 1 : 0;
   } catch (const std::exception&) { f[3] = -1; }
-  if (rb) { try { Line l; rb->observe(l, 1); f[5] = (l == ref) ? 1 : 0; } catch (const std::exception&) { f[5] = -1; } }
+  if (rb) { try { Line l; rb->observe(l, 1); f[5] = (l == ref) ? 1 : 0; if (!f[5]) dbg_lines("original vs restored from bytes", ref, l); } catch (const std::exception&) { f[5] = -1; } }
   if (rs) { try { Line l; rs->observe(l, 1); f[6] = (l == ref) ? 1 : 0; } catch (const std::exception&) { f[6] = -1; } }
   // re-serialization (taken from fresh restorations, so that observation side effects play no role)
   try {
@@ -433,11 +462,15 @@ inline void op_roundtrip(Obj& obj, const Line& seg, const std::function<void(int
       reseed(1); bool app = obj.cont(seg);
       if (app) {
         reseed(1); rb->cont(seg);
-        Line l0, l1; reseed(2); obj.observe(l0, 1); reseed(2); rb->observe(l1, 1);
+        const int om = obj.cont_exact() ? 1 : 3;
+        Line l0, l1; reseed(2); obj.observe(l0, om); reseed(2); rb->observe(l1, om);
         bool ok = (l0 == l1);
-        if (rs) { reseed(1); rs->cont(seg); Line l2; reseed(2); rs->observe(l2, 1); ok = ok && (l0 == l2); }
-        reseed(3); Bytes i0 = obj.ser(0); reseed(3); Bytes i1 = rb->ser(0);
-        if (!(i0 == i1 || (obj.unordered_layout(i0) && obj.canon(i0) == obj.canon(i1)))) ok = false;
+        if (!ok) dbg_lines("continue: original vs restored from bytes", l0, l1);
+        if (rs) { reseed(1); rs->cont(seg); Line l2; reseed(2); rs->observe(l2, om); ok = ok && (l0 == l2); }
+        if (obj.cont_exact()) {
+          reseed(3); Bytes i0 = obj.ser(0); reseed(3); Bytes i1 = rb->ser(0);
+          if (!(i0 == i1 || (obj.unordered_layout(i0) && obj.canon(i0) == obj.canon(i1)))) ok = false;
+        }
         f[9] = ok ? 1 : 0;
       }
     } catch (const std::exception&) { f[9] = -1; }
